@@ -1,5 +1,6 @@
 import GsModel.Text.EscapeLemmas
 import GsModel.Text.Tags
+import GsModel.Text.Unquote
 import GsModel.Gen.Sites
 /-
   C09 — Free text from the spec never becomes code.
@@ -10,7 +11,8 @@ import GsModel.Gen.Sites
   * `struct_tag_one_token`: the struct tag written by `GenSchema.PrintTags` (Go code, not a template site: with
     `--struct-tags description|example` it carries free text) is, for EVERY list of tags and values, exactly one Go string
     literal — a raw literal with no backtick inside when every value can be back-quoted, one `strconv.Quote`d literal
-    otherwise (model of strconv.Quote / CanBackquote tied by the correspondence run); `last_value_rule_is_unsafe`: the
+    otherwise (model of strconv.Quote / CanBackquote tied by the correspondence run), and (`struct_tag_value`) the literal's
+    value is exactly the assembled tag text; `last_value_rule_is_unsafe`: the
     simplification "only the last value decides" does not have the property.
   * `all_sites_safe`: over the site table REGENERATED on every run by marker rendering (every place a free-text field
     lands in a generated file, its observed lexical context and the transformation observed on probe characters), every
@@ -38,6 +40,17 @@ theorem struct_tag_one_token (tags : List (Tags.Str × Tags.Str)) (custom : Tags
     (hk : ∀ kv ∈ tags, '`' ∉ kv.1) (hc : '`' ∉ custom) :
     Tags.rawOneToken (Tags.printTags tags custom) = true ∨ Tags.interpOneToken (Tags.printTags tags custom) = true :=
   Tags.printTags_one_token tags custom hk hc
+
+/-- … and its value is exactly the tag text: either the raw literal holds `completeTag` verbatim, or the interpreted literal
+    unquotes to it (`unquote_quote`: the escapes strconv.Quote writes are undone by the scanner), for every text of the BMP -/
+theorem struct_tag_value (tags : List (Tags.Str × Tags.Str)) (custom : Tags.Str)
+    (hbmp : ∀ c ∈ Tags.completeTag tags custom, c.toNat < 65536) :
+    Tags.printTags tags custom = '`' :: Tags.completeTag tags custom ++ ['`'] ∨
+    ∃ body, Tags.printTags tags custom = '"' :: body ++ ['"'] ∧ Tags.unq body = some (Tags.completeTag tags custom) := by
+  unfold Tags.printTags
+  split
+  · exact Or.inl rfl
+  · exact Or.inr ⟨Tags.quoteBody _, rfl, Tags.unquote_quote _ hbmp⟩
 
 theorem quote_is_one_token (s : Tags.Str) : Tags.interpOneToken (Tags.quote s) = true := Tags.quote_one_token s
 
